@@ -218,6 +218,25 @@ def run_case(ctx, repo, case):
                     ka, kb = R.tp_key(a), R.tp_key(b)
                     if ka != kb:
                         ctx.nontrivial((mode, ka, kb))
+        # points derived by arithmetic from already-hashed points must
+        # compare and hash like freshly built ones at the same instant
+        if all(R.tp_is_integral(p) for p in pts) and len(pts) >= 2:
+            a, b = pts[0], pts[-1]
+            if a._second_of_minute is not None and \
+                    b._second_of_minute is not None:
+                diff = int(R.tp_instant(mode, b) - R.tp_instant(mode, a))
+                try:
+                    q = a + repo.Duration(seconds=diff)
+                    ctx.ev("derived")
+                    hash(q)
+                    q == b
+                    b == q
+                    q < b
+                    q2 = (b - repo.Duration(seconds=diff))
+                    hash(q2)
+                    q2 == a
+                except (ValueError, RecursionError):
+                    pass
         # container behaviour, decided against the reference
         integral = all(R.tp_is_integral(p) for p in pts)
         if integral:
